@@ -63,6 +63,7 @@ type world struct {
 	rootID               map[common.Hash]uint64
 	txID                 map[common.Hash]uint64
 	valRoot, stakingRoot common.Hash
+	deleted              int // header/body/receipt deletions seen in the current import
 }
 
 func (w *world) rid(r common.Hash) uint64 {
